@@ -358,6 +358,19 @@ def extract(src_text):
             has(r"voidjump\(\)noexcept;", "jump")
             has(r"usingBase::BaseRandomT;", "inherited constructors")
     put("wrappersRecognised", 1)
+
+    # ---- sanity: `_state` has four words; the model's S4.get/S4.set are written for indices 0..3 ----
+    for name, v in F.items():
+        idxs = []
+        if name.endswith(("ResA", "ResB", "ResIdx", "TIdx", "TDst", "RotDst", "RotSrc")):
+            idxs = [v]
+        elif name.endswith("XorSeq"):
+            idxs = [i for ab in v for i in ab]
+        elif name.endswith("SeedOrder"):
+            idxs = list(v)
+        for i in idxs:
+            if i > 3:
+                raise ShapeError("%s: state index %d is outside `_state[4]`" % (name, i))
     return F, order
 
 
